@@ -77,6 +77,15 @@ chk("C16", "exploration", "E2-boundary-enumerator",
     "For each fixed-width field the muxer writes, histories are constructed that put the derived value just below, at and just above the field boundary (decode-time gaps and cumulative durations around 2^31/2^32, composition offsets around 2^31, parameter sets and dimensions around 2^16, sample rates around 2^16, timestamps near 2^53, fragmented gaps/offsets), in combination with the neighbouring sites. The crossing call must return an error or every decoded field must equal the exact integer recomputed from the history.",
     READER + " Descriptor lengths near 2^8 and box sizes near 2^32 are unreachable and not claimed.", "DESIGN.md §4 C16")
 
+chk("C18", "exploration", "E2-input-enumerator",
+    "exhaustive enumeration of creation dates (every day), language codes (all 26^3) and title/presence combinations through finish, decoded by the independent reader; differential against the metadata-free run",
+    "Every day from 1970 to 2110 (thorough: to 9999-12-31) plus the calendar-special days of every year to 9999 is rendered and compared with an independently written civil-from-days calendar; all 17576 language codes are packed and read back from every track; titles of all UTF-8 shapes and all presence combinations are checked for exact bytes, item structure and absence of udta; the same history without metadata must give the same reader-reduced movie with uniformly shifted offsets.",
+    READER + " Reference calendar in harness/oracle/src/refmodel.rs.", "DESIGN.md §4 C18")
+chk("C19", "exploration", "E2-configuration-enumerator",
+    "exhaustive enumeration of the configuration space, every header box and configuration record decoded field by field by a specification-derived strict reader",
+    "All codec x audio x layout x metadata configurations x dimensions x frame counts, all channel/rate combinations, and the fragmented configurations with their init and media segments are produced and every fixed-layout box (ftyp, mvhd, tkhd, mdhd, hdlr, vmhd, smhd, dref/url, stsd, sample entries, avcC, hvcC, av1C, vpcC, esds, dOps, trex, mfhd, tfhd, tfdt, trun) is checked for size, version, flags, reserved bits and recovered values.",
+    "Trusted base: the reader's field decoders, written from ISO/IEC 14496-12/-14/-15 and the AV1, VP9 and Opus bindings.", "DESIGN.md §4 C19")
+
 NOT_YET = {
 }
 
